@@ -317,6 +317,9 @@ func checkC06(c *Ctx) {
 		}
 	}
 
+	// ---- C06.7 the policy that is enforced is the policy that was configured (shared with C19.6)
+	checkPolicyListWriters(c, "C06.7")
+
 	// ---- C06.3
 	r.Rule("C06.3", "writers of DecoyRegistration.Covert", 3)
 	for _, f := range c.P.RepoFuncs() {
